@@ -22,6 +22,7 @@ import (
 	"github.com/comdex-official/comdex/app/wasm/bindings"
 	assettypes "github.com/comdex-official/comdex/x/asset/types"
 	collectortypes "github.com/comdex-official/comdex/x/collector/types"
+	lockertypes "github.com/comdex-official/comdex/x/locker/types"
 	vaulttypes "github.com/comdex-official/comdex/x/vault/types"
 
 	"verif/rec"
@@ -55,14 +56,23 @@ type vProduct struct {
 	PairID    uint64 `json:"-"`
 }
 
+type vLockerCfg struct {
+	App     int    `json:"app"`
+	Asset   int    `json:"asset"` // index into assets (a debt asset)
+	LSR     string `json:"locker_saving_rate"`
+	Rewards bool   `json:"rewards_whitelisted"`
+	Seed    string `json:"seed_net_fees"` // fees paid into the collector for this (app, asset) at setup
+}
+
 type vCfg struct {
-	Seed       uint64     `json:"seed"`
-	NApps      int        `json:"n_apps"`
-	InterestOn []bool     `json:"interest_on"` // per app: whitelisted for vault interest
-	Assets     []vAsset   `json:"assets"`
-	NColl      int        `json:"n_collateral"` // assets[0:NColl] are collateral, the rest debt assets
-	Products   []vProduct `json:"products"`
-	NUsers     int        `json:"n_users"`
+	Seed       uint64       `json:"seed"`
+	NApps      int          `json:"n_apps"`
+	InterestOn []bool       `json:"interest_on"` // per app: whitelisted for vault interest
+	Assets     []vAsset     `json:"assets"`
+	NColl      int          `json:"n_collateral"` // assets[0:NColl] are collateral, the rest debt assets
+	Products   []vProduct   `json:"products"`
+	NUsers     int          `json:"n_users"`
+	Lockers    []vLockerCfg `json:"lockers,omitempty"`
 }
 
 type vOp struct {
@@ -75,6 +85,7 @@ type vOp struct {
 	Asset  int    `json:"asset,omitempty"`
 	Price  uint64 `json:"price,omitempty"`
 	Active bool   `json:"active,omitempty"`
+	L      int    `json:"l,omitempty"` // index into cfg.Lockers
 }
 
 type vCase struct {
@@ -98,6 +109,11 @@ type vMachine struct {
 	bRejected int
 	ntMint    int // C02: successful mints on products with differing scales or truncating fee
 	liquidity bool
+	// C13
+	lockerPaid  int // locker operations that paid savings > 0
+	lockerMulti bool
+	lockerExit  int
+	unsolMod    map[string]sdk.Int // unsolicited transfers key "module/denom"
 }
 
 func (m *vMachine) fail(assertion, ctx, f string, a ...interface{}) {
@@ -155,6 +171,19 @@ func genVCfg(rt *rapid.T, prop string) vCfg {
 		}
 		cfg.Products = append(cfg.Products, p)
 	}
+	if prop == "C13" || prop == "C18" {
+		for a := 0; a < cfg.NApps; a++ {
+			for d := cfg.NColl; d < len(cfg.Assets); d++ {
+				if cfg.Assets[d].DecExp == 18 {
+					continue // savings accrual uses Int64(): whole 18-decimal coins do not fit
+				}
+				cfg.Lockers = append(cfg.Lockers, vLockerCfg{App: a, Asset: d,
+					LSR:     rapid.SampledFrom([]string{"0", "0.02", "0.1", "0.5", "0.999"}).Draw(rt, fmt.Sprintf("lsr%d_%d", a, d)),
+					Rewards: rapid.IntRange(0, 4).Draw(rt, fmt.Sprintf("lrew%d_%d", a, d)) > 0,
+					Seed:    rapid.SampledFrom([]string{"0", "1000", "1000000000", "1000000000000", "1000000000000"}).Draw(rt, fmt.Sprintf("lseed%d_%d", a, d))})
+			}
+		}
+	}
 	return cfg
 }
 
@@ -207,6 +236,28 @@ func newVMachine(t rec.TB, r *rec.Rec, prop string, cs *vCase) *vMachine {
 			}
 		}
 		c.Fund(u.Addr, coins)
+	}
+	for _, lc := range cfg.Lockers {
+		app, asset := m.apps[lc.App], cfg.Assets[lc.Asset]
+		huge := world.Pow10(40)
+		if err := c.App.CollectorKeeper.WasmSetCollectorLookupTable(c.Ctx, &bindings.MsgSetCollectorLookupTable{AppID: app, CollectorAssetID: asset.ID, SecondaryAssetID: cfg.Assets[0].ID,
+			SurplusThreshold: huge, DebtThreshold: sdk.ZeroInt(), LockerSavingRate: sdk.MustNewDecFromStr(lc.LSR), LotSize: sdk.NewInt(1000000), BidFactor: sdk.MustNewDecFromStr("0.01"), DebtLotSize: sdk.NewInt(1000000)}); err != nil {
+			panic(err)
+		}
+		if _, err := c.App.LockerKeeper.AddWhiteListedAsset(c.Ctx, lockertypes.NewMsgAddWhiteListedAssetRequest(c.Accs[0].Addr.String(), app, asset.ID)); err != nil {
+			panic(err)
+		}
+		if lc.Rewards {
+			if err := c.App.Rewardskeeper.WhitelistAssetForInternalRewards(c.Ctx, app, asset.ID); err != nil {
+				panic(err)
+			}
+		}
+		if seed := mustInt(lc.Seed); seed.IsPositive() {
+			c.FundModule(collectortypes.ModuleName, sdk.NewCoins(sdk.NewCoin(asset.Denom, seed)))
+			if err := c.App.CollectorKeeper.UpdateCollector(c.Ctx, app, asset.ID, seed, sdk.ZeroInt(), sdk.ZeroInt(), sdk.ZeroInt()); err != nil {
+				panic(err)
+			}
+		}
 	}
 	c.NextBlock(5 * time.Second)
 	return m
@@ -302,6 +353,12 @@ func (m *vMachine) genOp(rt *rapid.T, i int) vOp {
 	kinds := []string{"create", "create", "create", "deposit", "withdraw", "draw", "draw", "repay", "repay", "close", "depdraw", "intcalc", "block", "block", "price", "unsolicited", "smcreate", "smdeposit", "smwithdraw"}
 	if m.prop == "C03" {
 		kinds = append(kinds, "create", "draw", "withdraw", "depdraw", "price", "block")
+	}
+	if m.prop == "C13" {
+		kinds = append(kinds, "block", "block", "block", "repay", "close", "draw")
+	}
+	if m.prop == "C13" && len(cfg.Lockers) > 0 && rapid.IntRange(0, 9).Draw(rt, lbl("lockerop")) < 6 {
+		return m.genLockerOp(rt, i)
 	}
 	k := rapid.SampledFrom(kinds).Draw(rt, lbl("kind"))
 	op := vOp{K: k}
@@ -553,7 +610,16 @@ func (m *vMachine) snap(u int, p *vProduct, pi int) vSnap {
 func (m *vMachine) apply(i int, op vOp) {
 	c := m.c
 	cfg := &m.cs.Cfg
+	var pre *c13Snap
+	if m.prop == "C13" {
+		pre = m.c13Snapshot()
+		defer func() { m.c13Delta(i, op, pre) }()
+	}
 	switch op.K {
+	case "lcreate", "ldeposit", "lwithdraw", "lclose", "lcalc", "lsr", "lunsol":
+		m.applyLocker(i, op)
+		m.invariants(i, op)
+		return
 	case "block":
 		if err := c.NextBlockRecover(time.Duration(op.Dt) * time.Second); err != nil {
 			m.fail(m.prop+".block-hook-panic", "block", "step %d: %v", i, err)
@@ -654,6 +720,8 @@ func (m *vMachine) invariants(i int, op vOp) {
 		m.c02Invariants(i, op)
 	case "C03":
 		m.c03Invariants(i, op)
+	case "C13":
+		m.c13Invariants(i, op)
 	}
 }
 
@@ -956,6 +1024,8 @@ func (m *vMachine) finish() {
 		if m.ntMint > 0 && ok["repay"]+ok["close"]+ok["smwithdraw"] > 0 {
 			r.NonTrivial(m.cs)
 		}
+	case "C13":
+		m.c13Finish()
 	case "C03":
 		r.ClassN("accepted-within-1e-9-of-min-cr", m.bAccepted)
 		if m.bAccepted > 0 || (m.boundary > 0 && ok["create"]+ok["draw"]+ok["withdraw"]+ok["depdraw"] > 0) {
@@ -1001,11 +1071,13 @@ func vaultReplay(prop string) func(t *testing.T, r *rec.Rec, raw json.RawMessage
 func TestC01_vault(t *testing.T) { vaultCheck(t, "C01") }
 func TestC02_vault(t *testing.T) { vaultCheck(t, "C02") }
 func TestC03_vault(t *testing.T) { vaultCheck(t, "C03") }
+func TestC13_vault(t *testing.T) { vaultCheck(t, "C13") }
 
 func init() {
 	replayers["C01.vault"] = vaultReplay("C01")
 	replayers["C02.vault"] = vaultReplay("C02")
 	replayers["C03.vault"] = vaultReplay("C03")
+	replayers["C13.vault"] = vaultReplay("C13")
 }
 
 var _ = assettypes.ModuleName
